@@ -34,8 +34,20 @@ DynOwn == {SeqV(TTup(<<TDyn, TNum>>), <<Null(TDyn), NumV(4)>>), MapV(TObj([a |->
            SeqV(TTup(<<TTup(<<TDyn>>)>>), <<SeqV(TTup(<<TDyn>>), <<Null(TDyn)>>)>>), SeqV(TTup(<<TList(TDyn), TStr>>), <<SeqV(TList(TDyn), <<>>), StrV(<<"a">>)>>), Null(TDyn),
            MapV(TObj([a |-> TMap(TDyn)]), [a |-> MapV(TMap(TDyn), <<>>)])}
 DynOwnLines == {[k |-> "jm", vals |-> <<v>>, tys |-> <<TDyn, v.ty>>] : v \in DynOwn}
+\* values of DIFFERENT types that read alike ("list of object", "map of tuple", ...) marshalled one after the other by one process
+\* at placeholder positions, alone and side by side in one document: each type descriptor must be the value's own
+OA == TObj([a |-> TNum])   OB == TObj([b |-> TStr])   OC == TObj([a |-> TStr])
+T1 == TTup(<<TNum>>)       T2 == TTup(<<TStr, TNum>>)
+oa == MapV(OA, [a |-> NumV(4)])   ob == MapV(OB, [b |-> StrV(<<"a">>)])   oc == MapV(OC, [a |-> StrV(<<"b">>)])
+t1 == SeqV(T1, <<NumV(8)>>)       t2 == SeqV(T2, <<StrV(<<"a">>), NumV(0)>>)
+Alike == <<SeqV(TList(OA), <<oa>>), SeqV(TList(OB), <<ob>>), SeqV(TList(OC), <<oc>>), SeqV(TList(OA), <<oa, oa>>),
+           SeqV(TSet(OA), <<oa>>), SeqV(TSet(OB), <<ob>>), MapV(TMap(T1), [a |-> t1]), MapV(TMap(T2), [a |-> t2]), MapV(TMap(OC), [b |-> oc]), MapV(TMap(OA), [b |-> oa]),
+           SeqV(TList(T2), <<t2>>), SeqV(TList(T1), <<t1, t1>>), SeqV(TList(TList(OB)), <<SeqV(TList(OB), <<ob>>)>>), SeqV(TList(TList(OA)), <<SeqV(TList(OA), <<oa>>)>>)>>
+Side(v, w) == SeqV(TTup(<<v.ty, w.ty>>), <<v, w>>)
+AlikeLines == {[k |-> "jm", vals |-> Alike \o <<Alike[1]>>, tys |-> <<TDyn>>]}
+              \cup {[k |-> "jm", vals |-> <<Side(Alike[i], Alike[j])>>, tys |-> <<TTup(<<TDyn, TDyn>>), TDyn, TTup(<<TDyn, Alike[j].ty>>)>>] : i \in 1..Len(Alike), j \in 1..Len(Alike)}
 DLine == [k |-> "jd", docs |-> SetToSeq(IF Thorough THEN D2 ELSE TakeN(D2, 600))]
-ASSUME LET out == [j \in 1..Len(Mine) |-> MLine(TS[Mine[j]])] \o [j \in 1..Len(Mine) |-> XLine(TS[Mine[j]])] \o (IF ShardI = 0 THEN <<DLine>> \o SetToSeq(DynOwnLines) ELSE <<>>) IN
+ASSUME LET out == [j \in 1..Len(Mine) |-> MLine(TS[Mine[j]])] \o [j \in 1..Len(Mine) |-> XLine(TS[Mine[j]])] \o (IF ShardI = 0 THEN <<DLine>> \o SetToSeq(DynOwnLines) \o SetToSeq(AlikeLines) ELSE <<>>) IN
        ndJsonSerialize(IOEnv.VOUT, out) /\ PrintT(<<"GEN", Len(out)>>)
 VARIABLE x
 Init == x = 0
